@@ -10,7 +10,7 @@ PROPS = "Props/C19.v"
 THEOREMS = ["C19_reachable_wf", "C19_record_get", "C19_frame", "C19_grow_padding", "C19_errors_preserve_state",
             "C19_setitem", "C19_no_alias", "C19_env_mutation_invisible", "C19_last_record_wins",
             "C19_unrecorded_is_blank", "C19_record_iteration", "C19_result_keys", "C19_result_copies",
-            "C19_result_fields_readable", "C19_status_unset_refuted"]
+            "C19_result_fields_readable", "C19_status_unset_refuted_before_fix"]
 LEVEL = "proof"
 RULE = ("(a) op sequences on the real IterationHistory / OptimizeResult from one PRNG: known, unknown and deleted keys; "
         "iterations negative / in range / at the end / with a gap / far beyond the end; values int, float, str, numpy scalar, "
@@ -129,7 +129,7 @@ def tie_result(ctx, broken, n):
                       f"_keys={decl} set_attributes assigns={assigned} " + logk[-200:]):
         broken.append(("correspondence:result_key_lists",
                        f"OptimizeResult._keys / the keys assigned by set_attributes no longer match the model "
-                       f"(C19_status_unset_refuted and C19_result_fields_readable are about the model's lists): "
+                       f"(C19_result_fields_readable is about the model's lists): "
                        f"_keys={decl}, assigned={assigned}"))
     return len(cases) - len(bad)
 
@@ -184,7 +184,18 @@ def tie_runs(ctx, broken):
     for key, items in seen_keys.items():
         msg, cfg = items[0]
         extra = f" [{len(items)} occurrences in {len({json.dumps(c, sort_keys=True) for _, c in items})} of {len(done)} runs]"
+        if key in R.STRICT_KEYS:
+            continue
         ctx.violate(key, msg + extra, dict(kind="run", cfg=cfg))
+    # clauses stricter than the text: an observation tied to the run, never a violation by itself
+    for key in sorted(R.STRICT_KEYS):
+        items = seen_keys.get(key, [])
+        ok = ctx.oblige("observation:" + key, "correspondence", not items,
+                        (items[0][0] + f" [{len(items)} occurrences]") if items else "holds on every run, every loop iteration")
+        if not ok:
+            broken.append(("observation:" + key,
+                           "a consistency fact of the unchanged code (stricter than the property's text) no longer holds on real runs: "
+                           + items[0][0] + f" [{len(items)} occurrences]; cfg={items[0][1]}"))
     aliases = [(r["cfg"]["mode"], r["hist_alias"]) for r in done if r["hist_alias"]]
     if aliases:
         ctx.notes.append("observation (not a violation): after the final noisy selection bads.u IS the history cell "
@@ -192,13 +203,6 @@ def tie_runs(ctx, broken):
     sw = sum(len(R.swap_report(r)) for r in done)
     ctx.coverage["noisy_swaps_observed"] = sw
     ctx.coverage["noisy_swap_violations"] = len(seen_keys.get("noisy-swap-loses-point", []))
-    # refuted clauses must still reproduce on the real code (otherwise the model is stale)
-    if done and "result-status-never-set" not in seen_keys:
-        ctx.oblige("refutation:status_unset_reproduces", "correspondence", False, "result.status is readable on a real result")
-        broken.append(("refutation:status_unset", "C19_status_unset_refuted no longer reproduces on a real OptimizeResult: "
-                       "result['status'] is readable — the model's set_attributes_keys is stale"))
-    else:
-        ctx.oblige("refutation:status_unset_reproduces", "correspondence", True, "result['status'] -> KeyError on every real result")
 
 
 def tie(ctx, broken):
@@ -255,7 +259,7 @@ def replay(ctx, rp):
         hit = [m for k, m in v if k == want] or [m for k, m in v]
         for m in hit[:6]:
             print("replay:", m)
-        print("swaps (loop_iter, poll_iteration, row whose value was swapped in, finished):", R.swap_report(rec))
+        print("swaps (loop_iter, poll_iteration, row swapped in, incumbent point is that row's point, finished):", R.swap_report(rec))
         if not hit:
             print("replay: property holds on this input now")
         return 1 if hit else 0
